@@ -248,7 +248,9 @@ def call_strategy():
     # a comment must never add a line or words to the block (C09 studies the
     # text in depth; here it is part of "one well-formed block per call")
     text = st.sampled_from([None, "hello", "feed move", "ümlaut ✓", "a b  c",
-                            "retract\nM112", "pocket (rough) M30", "x\r\nG0 Z-5"])
+                            "retract\nM112", "pocket (rough) M30", "x\r\nG0 Z-5",
+                            # closing delimiters nested inside themselves
+                            "pocket **// G1 X999 */", "a )) b (", "x ]] y [", "q }} r {"])
     axes = st.fixed_dictionaries({}, optional={"x": anyv, "y": anyv, "z": anyv})
     # free-form words are plain keyword arguments (not type-checked): every
     # numpy scalar type can arrive there
